@@ -16,7 +16,9 @@
 (*                           are applied by every segment collector before *)
 (*                           the merge; "S12b": top_hits `from` is skipped *)
 (*                           by every segment collector and again by every *)
-(*                           merge (what the code does today).             *)
+(*                           merge; "S12c": range buckets are merged by    *)
+(*                           key string, so ranges with equal keys collide *)
+(*                           (what the code does today).                   *)
 (*                                                                         *)
 (* Numbers.  TLC has 32-bit integers and no reals.  Every numeric field   *)
 (* value is carried in quarters (i64 values times 4; f64 values of the    *)
@@ -31,7 +33,7 @@
 (*  terms   f size hassize shard hasshard mdc hasmissing missing subs      *)
 (*  rare    f maxdc size hassize subs  (hasmissing = FALSE, missing = "")     *)
 (*  range   f fk ranges:<<[key hasfrom from8 hasto to8]>> hasmissing       *)
-(*          missing4 subs                                                   *)
+(*          missing4 subs    (key of a range without key: "#from8:to8")     *)
 (*  hist    f fk iv4 off4 hasmdc mdc hasext extmin4 extmax4 hashard        *)
 (*          hardmin8 hardmax8 hasmissing missing4 rnd subs                  *)
 (*  stats | estats | vcount    f fk hasmissing missing4                    *)
@@ -251,6 +253,7 @@ RefAll(D, M, aggs) == RefSubs(D, M, aggs)
 (*                      value is taken over the union) - except stats,     *)
 (*                      which is merged the way the code does:             *)
 (*   stats              [t = "istats", count, min4, max4, sum4]            *)
+(*   value_count        [t = "icount", v]                                  *)
 (*   terms/rare/hist/comp  [t = "ib", bs : set of [key, n, subs]]          *)
 (*   range              [t = "iseq", bs : sequence of [key, n, subs]]      *)
 (*   filter             [t = "ifilter", n, subs]                           *)
@@ -266,9 +269,10 @@ Limited(X, Less(_, _), lim) == IF lim = NOLIMIT THEN X ELSE FirstOf(X, Less, lim
 Collect(D, P, a, mode) ==
   CASE a.t = "stats" -> LET s == StatsOf(BagOf(P, a)) IN
                         [t |-> "istats", count |-> s.count, min4 |-> s.min4, max4 |-> s.max4, sum4 |-> s.sum4]
+    [] a.t = "vcount" -> [t |-> "icount", v |-> Len(BagOf(P, a))]
     [] a.t = "tophits" /\ "S12b" \in mode ->      \* TopHitsCollector::finish: skip `from`, take `size`, per segment
          [t |-> "itop", total |-> Cardinality(P), hits |-> SubSeq(DocsInOrder(D, P, a.sort), a.from + 1, MinI(Cardinality(P), a.from + a.size))]
-    [] IsLeaf(a) /\ a.t # "stats" -> [t |-> "idocs", docs |-> P]
+    [] IsLeaf(a) /\ a.t \notin {"stats", "vcount"} -> [t |-> "idocs", docs |-> P]
     [] a.t = "terms" ->
          LET keys == UNION {KwKeys(d, a) : d \in P}
              bs == {IBkt(D, <<KStr(k)>>, {d \in P : k \in KwKeys(d, a)}, a, mode) : k \in keys}
@@ -303,6 +307,10 @@ MergeSubs(D, subs, xs, ys, mode) ==
   [i \in DOMAIN subs |-> [name |-> subs[i].name, i |-> MergeI(D, subs[i].a, xs[i].i, ys[i].i, mode)]]
 MergeBkt(D, a, x, y, mode) == [key |-> x.key, n |-> x.n + y.n, subs |-> MergeSubs(D, a.subs, x.subs, y.subs, mode)]
 
+RECURSIVE FoldBkts(_, _, _, _, _)
+FoldBkts(D, a, b, ys, mode) ==
+  IF ys = <<>> THEN b ELSE FoldBkts(D, a, MergeBkt(D, a, b, Head(ys), mode), Tail(ys), mode)
+
 MergeSets(D, a, X, Y, mode) ==
   LET kx == {b.key : b \in X}
       ky == {b.key : b \in Y}
@@ -312,6 +320,7 @@ MergeSets(D, a, X, Y, mode) ==
 
 MergeI(D, a, x, y, mode) ==
   CASE x.t = "idocs" -> [t |-> "idocs", docs |-> x.docs \cup y.docs]
+    [] x.t = "icount" -> [t |-> "icount", v |-> x.v + y.v]
     [] x.t = "itop" ->                           \* merge_top_hits: best size + from of both lists, skip `from` again
          LET all == DocsInOrder(D, SeqToSet(x.hits) \cup SeqToSet(y.hits), a.sort)
              best == Prefix(all, a.size + a.from)
@@ -321,7 +330,12 @@ MergeI(D, a, x, y, mode) ==
          ELSE [t |-> "istats", count |-> x.count + y.count, min4 |-> MinI(x.min4, y.min4),
                max4 |-> MaxI(x.max4, y.max4), sum4 |-> x.sum4 + y.sum4]
     [] x.t = "ifilter" -> [t |-> "ifilter", n |-> x.n + y.n, subs |-> MergeSubs(D, a.subs, x.subs, y.subs, mode)]
-    [] x.t = "iseq" -> [t |-> "iseq", bs |-> [i \in DOMAIN x.bs |-> MergeBkt(D, a, x.bs[i], y.bs[i], mode)]]
+    [] x.t = "iseq" ->
+         IF "S12c" \notin mode THEN [t |-> "iseq", bs |-> [i \in DOMAIN x.bs |-> MergeBkt(D, a, x.bs[i], y.bs[i], mode)]]
+         ELSE      \* merge_bucket_lists: by key string; every incoming bucket is added to the LAST bucket with its key
+           LET LastWith(k) == SetMax({i \in DOMAIN x.bs : x.bs[i].key = k})
+               Incoming(i) == IF LastWith(x.bs[i].key) = i THEN SelectSeq(y.bs, LAMBDA b : b.key = x.bs[i].key) ELSE <<>>
+           IN [t |-> "iseq", bs |-> [i \in DOMAIN x.bs |-> FoldBkts(D, a, x.bs[i], Incoming(i), mode)]]
     [] x.t = "ib" ->
          LET m == MergeSets(D, a, x.bs, y.bs, mode) IN
          [t |-> "ib",
@@ -344,6 +358,7 @@ FinBkt(D, a, b, mode) == [key |-> b.key, n |-> b.n, subs |-> FinSubs(D, a.subs, 
 
 Fin(D, a, x, mode) ==
   CASE x.t = "idocs" -> LeafRef(D, x.docs, a)
+    [] x.t = "icount" -> [t |-> "value", v |-> x.v]
     [] x.t = "itop" -> [t |-> "tophits", exact |-> TRUE, total |-> x.total, ids |-> [i \in DOMAIN x.hits |-> x.hits[i].id],
                         M |-> {}, size |-> a.size, from |-> a.from, sort |-> a.sort]
     [] x.t = "istats" -> [t |-> "stats", count |-> x.count, min4 |-> x.min4, max4 |-> x.max4, sum4 |-> x.sum4]
